@@ -310,6 +310,21 @@ def check_nearmiss(case):
   if expected is not None:
     require(typed(got_value) == typed(expected[1]), 'value-differs',
             lambda: f'text {text!r}: Gin {b.value!r} / Python {expected[1]!r}')
+    # ast.literal_eval is slightly wider than the literal grammar of the statement: it also
+    # evaluates a unary plus and the sum / difference of a number and a complex (`+1`, `1+2j`).
+    # Those are arithmetic ("numbers with an optional leading *minus*"): they must be rejected.
+    try:
+      with warnings.catch_warnings():
+        warnings.simplefilter('ignore')
+        tree = ast.parse('_ = ' + stripped + '\n')
+    except SyntaxError:
+      tree = None
+    if tree is not None:
+      arith = [n for n in ast.walk(tree) if isinstance(n, ast.BinOp) or
+               (isinstance(n, ast.UnaryOp) and not isinstance(n.op, ast.USub))]
+      require(not arith, 'accepted-arithmetic',
+              lambda: f'text {case["text"]!r} yields {b.value!r}: it contains arithmetic '
+                      f'({type(arith[0]).__name__} {type(getattr(arith[0], "op", None)).__name__})')
     return ok(labels + ['nearmiss:accepted-agrees'], True)
   if not has_ref(b.value) and REF_RE.search(text):
     # A reference may have been written into a dict entry that a later equal key overwrote
